@@ -77,6 +77,11 @@ def units(run: Run):
         for j, comp in enumerate(comps):
             gap_name = gaps.NAMES[(i + j) % 4]
             us.append((3, [("GEN", name, 3, s) for s in sd], comp, gap_name, (None, 2)[(i + j) % 2], f"gen:{name}", None))
+    # larger player counts (depth-bounded): n = 5 with all pairs known from the start (15 explorable), n = 6 with pairs and triples known
+    g5 = A.shifted(tuple(A.popcount(s) ** 2 + (s % 3) for s in range(32)), (1, -1, 2, 0, 3))
+    us.append((5, [g5, A.scaled(g5, 0.5)], SA[1], "l1_norm", 3, "exact5-pairs-known", 2, tuple(s for s in range(32) if A.popcount(s) == 2)))
+    g6 = dict(A.larger_n_samples(6))["star+convex"]
+    us.append((6, [g6], SA[1], "linf_norm", None, "exact6-small-known", 2 if quick else 3, tuple(s for s in range(64) if A.popcount(s) in (2, 3))))
     if not quick:
         for i, name in enumerate(fams):
             us.append((4, [("GEN", name, 4, gens.seed_window(seed, 1)[0])], SA[1], gaps.NAMES[i % 4], None, f"gen4:{name}", None))
@@ -85,6 +90,8 @@ def units(run: Run):
 
 
 def cost(u) -> float:
+    if u[0] >= 5:
+        return 3000
     if len(u) > 7 and u[7]:
         return 2 ** (2 ** u[0] - u[0] - 2 - len(u[7])) * len(u[1])
     return (2 ** (2 ** u[0] - u[0] - 2)) * len(u[1]) * (4 if u[2] == "sam_apx_100" else 40 if u[2] == "sam_apx_1000" else 1)
